@@ -95,6 +95,20 @@ impl SymbolTable {
         self.contexts.last_mut().unwrap()
     }
 
+    /// The number of symbols that are defined in the global scope
+    pub fn num_globals(&self) -> usize {
+        self.contexts[0].symbols[0].len()
+    }
+
+    /// Forgets everything except the given number of (first) symbols in the global scope
+    pub fn reset_to_globals(&mut self, num_globals: usize) {
+        self.contexts.truncate(1);
+        let globals = &mut self.contexts[0];
+        globals.symbols.truncate(1);
+        globals.symbols[0].truncate(num_globals);
+        globals.max_size = num_globals;
+    }
+
     /// Returns true if the current context is local to a function (so not the global context)
     pub fn in_function(&self) -> bool {
         self.contexts.len() > 1
